@@ -147,6 +147,9 @@ func c11DebugPassthrough(c *Ctx) {
 	}
 	conn := f.Params[1]
 	var reaches func(v ssa.Value, writer bool, depth int) bool
+	// a module helper that builds the reader / writer from its arguments: its parameters stand
+	// for the arguments of the call being followed
+	env := map[*ssa.Parameter]ssa.Value{}
 	// elems returns the values stored into the variadic array behind s
 	elems := func(s ssa.Value) []ssa.Value {
 		sl, ok := s.(*ssa.Slice)
@@ -189,7 +192,13 @@ func c11DebugPassthrough(c *Ctx) {
 		}
 		switch x := v.(type) {
 		case *ssa.Parameter:
-			return x == conn
+			if x == conn {
+				return true
+			}
+			if a, ok := env[x]; ok {
+				return reaches(a, writer, depth+1)
+			}
+			return false
 		case *ssa.ChangeInterface:
 			return reaches(x.X, writer, depth+1)
 		case *ssa.MakeInterface:
@@ -235,6 +244,23 @@ func c11DebugPassthrough(c *Ctx) {
 				return len(es) > 0 && reaches(es[0], writer, depth+1)
 			case "io.TeeReader":
 				return !writer && reaches(x.Call.Args[0], writer, depth+1)
+			}
+			if load.InModule(callee) && callee.Blocks != nil && len(callee.Params) == len(x.Call.Args) {
+				for i, p := range callee.Params {
+					env[p] = x.Call.Args[i]
+				}
+				n := 0
+				for _, b := range callee.Blocks {
+					for _, in := range b.Instrs {
+						if ret, ok := in.(*ssa.Return); ok && len(ret.Results) == 1 {
+							n++
+							if !reaches(ret.Results[0], writer, depth+1) {
+								return false
+							}
+						}
+					}
+				}
+				return n > 0
 			}
 		}
 		return false
